@@ -7,6 +7,13 @@ PROP = dict(
         fuzz_args=["-verbosity=0"],   # the runner drains the workers' stderr pipes one after the other: progress lines would stall the other 15 workers
         quick=dict(runs=100000, workers=16, max_len=256, timeout=1200),
         thorough=dict(runs=3000000, workers=16, max_len=512, timeout=7200),
+    ), dict(
+        name="libFuzzer AArch64 (Assembler/Builder/Compiler, database shapes with operand kinds kept and every id/element/shift/extend/offset/immediate/label perturbed)",
+        runner="custom", module="run_libfuzzer", target="fuzz_c14_a64", property="C14",
+        make=["build/bin/fuzz_c14_a64", "build/gen/a64_templates.txt"], regress="regress/C14a",
+        fuzz_args=["-verbosity=0"],
+        quick=dict(runs=60000, workers=16, max_len=256, timeout=1200),
+        thorough=dict(runs=2000000, workers=16, max_len=512, timeout=7200),
     )],
     rule=("coverage-guided libFuzzer campaigns (16 processes, half starting from an empty corpus and half from a small seed corpus): bytes are decoded by "
           "FuzzedDataProvider into scripts of up to 24 public-API calls on an x86 Assembler (strict) / Builder / Compiler (DiagnosticOptions generated: "
@@ -21,6 +28,11 @@ PROP = dict(
           "with kValidateIntermediate an accepted instruction must pass InstAPI::validate() the way the Assembler calls it and carry no virtual-range id "
           "(Builder), a rejected call leaves node list / cursor / flags / options untouched, and serialising the nodes (finalize(), or serialize_to a strict "
           "Assembler) must fail iff the shadow rejected an accepted call and otherwise give the shadow's bytes, label offsets and relocation counts. "
+          "AArch64 (second target, props/fuzz_c14_a64.cpp): scripts over the 3,199 operand shapes of the instruction database with the operand kinds kept and every register id "
+          "(0..40, boundaries 31/32/62/63/64/255/256, virtual range, arbitrary words), element type / index, shift / extend kind and amount, offset, offset mode, immediate, condition code "
+          "and label id perturbed; label forms (b, bl, b.cond, cbz, cbnz, tbz, tbnz, adr, adrp, ldr/ldrsw/prfm literal) with valid and invalid label ids; same state-invariance oracle, plus: an "
+          "accepted instruction appends whole words, names no register id outside the register file, gives the same word on a fresh Assembler, and a Builder/Compiler script serialises to "
+          "exactly the bytes of a shadow Assembler or fails iff the shadow rejected a call. "
           "Non-trivial = a script with >=1 failed call followed by >=1 successful call; "
           "distinct = distinct input bytes"),
     assumptions=["NDEBUG + ASan + UBSan flavour (what users ship); undefined InstOptions bits (0x10000000, 0x20000000, 0x00100000, 0x8) are outside the typed API and not generated",
@@ -31,7 +43,10 @@ PROP = dict(
                  "Builder/Assembler bytes are compared for single-section scripts (a Builder groups nodes by section); a Compiler is compared only while no virtual-range id was "
                  "accepted (no functions are created, so its register allocator never runs); calls naming a label that is created later are not judged",
                  "a libFuzzer campaign is only approximately reproducible from -seed; the saved artifact is the reproducible unit",
-                 "AArch64 invalid-input handling is exercised by C02's near-miss stream (values one step outside every range), not by a fuzz target yet"],
+                 "AArch64 target: operand KINDS follow a database shape (the typed overloads enforce them; pairing operands with an instruction id of another kind is outside the "
+                 "property's domain) - the instruction id is the one that accepts the shape's own example, or an id that names no instruction; `mov Rd, #imm` may append up to four words "
+                 "(documented macro); bind() returning kInvalidDisplacement has bound the label and resolved what it could (documented behaviour of CodeHolder::bind_label): fixups may only go down",
+                 "AArch64 'accepted a register id outside the register file' is judged on the operands actually passed (GP: 0..31 and 63, vector: 0..31; virtual-range ids are never acceptable to an Assembler)"],
 )
 META = dict(
     engine="libFuzzer (clang -fsanitize=fuzzer,address,undefined), structure-aware decoding, semantic oracle in the target",
